@@ -333,7 +333,10 @@ pub fn run_impl(c: &Case) -> Result<Seen, String> {
     let xml = render(c);
     let fsm = std::panic::catch_unwind(|| scxml_reader::parse_from_xml(xml)).unwrap_or_else(|_| Err("reader panicked".into()))?;
     let batches = vec![vec![Event::new_simple("go")], vec![Event::new_simple("error.platform.cancel")]];
-    let out = run_session_feed_with(fsm, &batches, &[1, 2], false, Duration::from_secs(20), false, |log| mark_actions(log), &[]);
+    let out = run_session_feed_with(fsm, &batches, &[1, 2], false, Duration::from_secs(5), false, |log| mark_actions(log), &[]);
+    if std::env::var("VH_DEBUG").is_ok() && (out.timed_out || out.panicked) {
+        eprintln!("HUNG/PANIC dm={} trace tail: {:?}", c.dm, out.trace.iter().rev().take(12).collect::<Vec<_>>());
+    }
     let mut all = vec![];
     for l in &out.trace {
         if let Some(r) = l.strip_prefix("mark ") {
@@ -411,7 +414,7 @@ pub fn check_case(c: &Case, rep: &mut Report) {
 }
 
 pub fn run_real(args: &Args, rep: &mut Report) {
-    let n = if args.thorough { 6000 } else { 400 };
+    let n = if args.thorough { 6000 } else if std::env::var("VH_FEW").is_ok() { 12 } else { 400 };
     for i in 0..n {
         let c = gen_case(args.seed, i);
         check_case(&c, rep);
